@@ -12,8 +12,8 @@ done
 echo "== copying"
 rsync -a -u --include '*/' --include '*.v' --exclude '*' --exclude 'Base/' "$w/coq/theories/" /verif/coq/theories/ --exclude 'Base/**' -i | grep '^>' | sed 's/^/   /'
 rsync -a -u -i "$w/harness/src/bin/" /verif/harness/src/bin/ | grep '^>' | sed 's/^/   /'
-for f in "$w"/harness/src/*.rs; do b=$(basename "$f"); case "$b" in common.rs|blas_shim.rs|main.rs|c16.rs|smallgen.rs) ;; *) cp -v "$f" /verif/harness/src/ | sed 's/^/   /';; esac; done
-for f in "$w"/vp/*.py; do b=$(basename "$f"); case "$b" in core.py|standard.py|skel_common.py|__init__.py|c16.py|c04.py|c07.py|c20.py|c06.py|c05.py) ;; *) cp -v "$f" /verif/vp/ | sed 's/^/   /';; esac; done
+for f in "$w"/harness/src/*.rs; do b=$(basename "$f"); case "$b" in common.rs|blas_shim.rs|main.rs|c16.rs|smallgen.rs) ;; *) cp -uv "$f" /verif/harness/src/ | sed 's/^/   /';; esac; done
+for f in "$w"/vp/*.py; do b=$(basename "$f"); case "$b" in core.py|standard.py|skel_common.py|__init__.py|c16.py|c04.py|c07.py|c20.py|c06.py|c05.py) ;; *) cp -uv "$f" /verif/vp/ | sed 's/^/   /';; esac; done
 rsync -a -u -i "$w/vp/pins/" /verif/vp/pins/ | grep '^>' | sed 's/^/   /'
 for d in manifest.d known_findings.d design.d corpus; do [ -d "$w/$d" ] && rsync -a -u -i --exclude '_header.json' --exclude 'C16.json' --exclude 'C04.json' --exclude 'C07.json' --exclude 'C20.json' --exclude 'C06.json' --exclude 'C05.json' "$w/$d/" /verif/$d/ | grep '^>' | sed 's/^/   /'; done
 echo "== repo commits on ws-$n:"
